@@ -208,6 +208,15 @@ func c15Values(tier string) (V []Operand, W []Operand) {
 			}
 		}
 	}
+	// exponent gaps beyond the 128-entry power-of-ten table with equal digit-count + exponent sums:
+	// 1E+L against 10^L, 10^L +- 1, and a long all-nines value
+	for _, L := range []int{129, 130, 150, 200} {
+		pl := ref.Pow10(L)
+		for _, neg := range []bool{false, true} {
+			V = append(V, Fin(1, int32(L), neg), FinBig(pl, 0, neg), FinBig(new(big.Int).Add(pl, big.NewInt(1)), 0, neg), FinBig(new(big.Int).Sub(pl, big.NewInt(1)), 1, neg),
+				FinBig(new(big.Int).Sub(ref.Pow10(L+1), big.NewInt(1)), 0, neg), Fin(10, int32(L-1), neg), Fin(2, int32(L), neg))
+		}
+	}
 	// LIMIT: gaps up to the package limit
 	V = append(V, limitOperands()...)
 	// W: the triple alphabet
